@@ -252,3 +252,124 @@ def translate_real_block(stmts: List[ast.stmt], env: Dict[str, str], result: str
     if not done:
         raise Untranslatable(f"result `{result}` is never assigned")
     return "\n  ".join(lines) + f"\n  some {result}"
+
+
+# ---------------------------------------------------------------------------------------------------------------------------------------
+# per-pair tensor programs (core-core repulsion and its derivative): every tensor has one entry per atom pair and every statement acts entry-wise,
+# so the program is a scalar program for ONE pair.  Supported statements: `x = expr`, `x = torch.zeros_like(..)`, boolean masks built from
+# comparisons of the integer inputs, masked assignment `x[m] = expr-with-[m]-operands` (-> `if m then … else x`), `x.add_(expr)`,
+# `if method == …: return x` / if-elif chains on the method (one definition per branch).  Reductions over a second axis (`torch.sum(.., dim=1)`)
+# must be declared inputs.
+
+class PairProgram:
+    def __init__(self, env: Dict[str, str], int_env: Dict[str, str], drop_methods=("unsqueeze", "reshape")):
+        self.env = dict(env)          # source text -> Lean name (real inputs)
+        self.inputs = set(env.keys())
+        self.int_env = dict(int_env)  # source text -> Lean name (integer inputs)
+        self.masks: Dict[str, str] = {}
+        self.lines: List[str] = []
+        self.drop_methods = drop_methods
+
+    # -- expressions
+    def rex(self, e: ast.AST, mask: str = None) -> str:
+        key = ast.unparse(e)
+        if key in self.env and not isinstance(e, ast.Constant):
+            return self.env[key]
+        if isinstance(e, ast.Subscript):
+            sl = ast.unparse(e.slice)
+            if mask is not None and sl == mask:
+                return self.rex(e.value, mask)
+            if sl in (":, None", "(:, None)"):
+                return self.rex(e.value, mask)
+        if isinstance(e, ast.Call) and isinstance(e.func, ast.Attribute) and e.func.attr in self.drop_methods:
+            return self.rex(e.func.value, mask)
+        if isinstance(e, ast.Constant) and isinstance(e.value, (int, float)) and not isinstance(e.value, bool):
+            return f"({e.value if isinstance(e.value, int) else repr(float(e.value))} : α)"
+        if isinstance(e, ast.BinOp) and isinstance(e.op, (ast.Add, ast.Sub, ast.Mult, ast.Div)):
+            op = {ast.Add: "+", ast.Sub: "-", ast.Mult: "*", ast.Div: "/"}[type(e.op)]
+            return f"({self.rex(e.left, mask)} {op} {self.rex(e.right, mask)})"
+        if isinstance(e, ast.BinOp) and isinstance(e.op, ast.Pow) and isinstance(e.right, ast.Constant) and e.right.value == 2:
+            a = self.rex(e.left, mask)
+            return f"({a} * {a})"
+        if isinstance(e, ast.UnaryOp) and isinstance(e.op, ast.USub):
+            return f"(-{self.rex(e.operand, mask)})"
+        if isinstance(e, ast.Call):
+            fn = ast.unparse(e.func)
+            if fn == "torch.exp" and len(e.args) == 1:
+                return f"(exp {self.rex(e.args[0], mask)})"
+            if fn == "torch.pow" and len(e.args) == 2 and ast.unparse(e.args[1]) == "-3":
+                return f"(powNeg3 {self.rex(e.args[0], mask)})"
+            if fn == "torch.zeros_like":
+                return "(0 : α)"
+        raise Untranslatable(f"pair expression {key}")
+
+    def bex(self, e: ast.AST) -> str:
+        key = ast.unparse(e)
+        if key in self.masks:
+            return self.masks[key]
+        if isinstance(e, ast.UnaryOp) and isinstance(e.op, ast.Invert):
+            return f"(!{self.bex(e.operand)})"
+        if isinstance(e, ast.BinOp) and isinstance(e.op, (ast.BitAnd, ast.BitOr)):
+            return f"({self.bex(e.left)} {'&&' if isinstance(e.op, ast.BitAnd) else '||'} {self.bex(e.right)})"
+        if isinstance(e, ast.Compare) and len(e.ops) == 1 and isinstance(e.ops[0], (ast.Eq, ast.NotEq)) and ast.unparse(e.left) in self.int_env \
+                and isinstance(e.comparators[0], ast.Constant) and isinstance(e.comparators[0].value, int):
+            op = "=" if isinstance(e.ops[0], ast.Eq) else "≠"
+            return f"(decide ({self.int_env[ast.unparse(e.left)]} {op} ({e.comparators[0].value} : Int)))"
+        raise Untranslatable(f"mask expression {key}")
+
+    def is_mask_expr(self, e: ast.AST) -> bool:
+        return isinstance(e, ast.Compare) or (isinstance(e, ast.BinOp) and isinstance(e.op, (ast.BitAnd, ast.BitOr))) or \
+            (isinstance(e, ast.UnaryOp) and isinstance(e.op, ast.Invert))
+
+    # -- statements; returns False when the statement is irrelevant (touches nothing tracked)
+    def stmt(self, n: ast.stmt) -> None:
+        if isinstance(n, ast.Expr) and isinstance(n.value, ast.Constant):
+            return
+        if isinstance(n, ast.Assign) and len(n.targets) == 1:
+            t, v = n.targets[0], n.value
+            if isinstance(t, ast.Name):
+                if t.id in self.inputs:
+                    return   # declared input: its defining statement (a reduction, a gather) is outside the scalar program
+                if ast.unparse(v) in self.env:
+                    self.env[t.id] = self.env[ast.unparse(v)]
+                    return
+                if ast.unparse(v) in self.int_env:
+                    self.int_env[t.id] = self.int_env[ast.unparse(v)]
+                    return
+                if self.is_mask_expr(v):
+                    self.lines.append(f"let {t.id} : Bool := {self.bex(v)}")
+                    self.masks[t.id] = t.id
+                    return
+                if any(isinstance(c, ast.Call) and ast.unparse(c.func) == "torch.sum" for c in ast.walk(v)):
+                    if t.id not in self.env:
+                        raise Untranslatable(f"reduction `{t.id}` is not a declared input")
+                    return
+                try:
+                    rhs = self.rex(v)
+                except Untranslatable:
+                    if mentions(v, list(self.env.keys())) or any(isinstance(x, ast.Name) and x.id in self.env.values() for x in ast.walk(v)):
+                        raise
+                    return   # set-up that involves no tracked value (device, dtype, unrelated parameters)
+                self.lines.append(f"let {t.id} := {rhs}")
+                self.env[t.id] = t.id
+                return
+            if isinstance(t, ast.Subscript) and isinstance(t.value, ast.Name) and t.value.id in self.env:
+                m = ast.unparse(t.slice)
+                cond = self.bex(t.slice)
+                name = t.value.id
+                self.lines.append(f"let {name} := if {cond} then {self.rex(v, m)} else {self.env[name]}")
+                self.env[name] = name
+                return
+            if isinstance(t, ast.Tuple):
+                return   # `_, K, L, M = parameters`
+            raise Untranslatable(f"assignment {ast.unparse(n)[:80]}")
+        if isinstance(n, ast.Expr) and isinstance(n.value, ast.Call) and isinstance(n.value.func, ast.Attribute) and n.value.func.attr == "add_" \
+                and isinstance(n.value.func.value, ast.Name) and n.value.func.value.id in self.env:
+            name = n.value.func.value.id
+            self.lines.append(f"let {name} := ({self.env[name]} + {self.rex(n.value.args[0])})")
+            self.env[name] = name
+            return
+        raise Untranslatable(f"statement {ast.unparse(n)[:80]}")
+
+    def body(self, result: str) -> str:
+        return "\n  ".join(self.lines + [self.env[result]])
